@@ -20,7 +20,7 @@ use std::rc::Rc;
 
 pub const MAX_LABELS: usize = 4;
 /// labels of the universe; index MAX_LABELS is the never-declared label
-pub const LABELS: [usize; 5] = [10, 20, 30, 40, 99];
+pub const LABELS: [usize; 6] = [10, 20, 30, 40, 99, 50];
 pub const UNKNOWN: u8 = 4;
 pub const FACTORS: [f64; 5] = [1.0, 1.25, 1.5, 2.0, 3.0];
 
@@ -197,9 +197,9 @@ pub fn history_str(ops: &[Op]) -> String {
 #[derive(Clone, Copy, Debug, PartialEq, Eq, Hash)]
 pub struct RefState {
     pub args: u8,
-    /// bit a*5+b (five labels; in the C09 alphabets the fifth one is the never-declared label)
-    pub atts: u32,
-    pub ids: [u8; 5],
+    /// bit a*6+b (six labels; in the C09 alphabets the fifth one is the never-declared label)
+    pub atts: u64,
+    pub ids: [u8; 6],
     pub next_id: u8,
 }
 
@@ -216,13 +216,13 @@ pub enum OpClass {
 
 impl RefState {
     pub fn new() -> Self {
-        RefState { args: 0, atts: 0, ids: [0; 5], next_id: 0 }
+        RefState { args: 0, atts: 0, ids: [0; 6], next_id: 0 }
     }
     pub fn has_arg(&self, a: u8) -> bool {
         self.args >> a & 1 == 1
     }
     pub fn has_att(&self, a: u8, b: u8) -> bool {
-        a < 5 && b < 5 && self.atts >> (a as u32 * 5 + b as u32) & 1 == 1
+        a < 6 && b < 6 && self.atts >> (a as u64 * 6 + b as u64) & 1 == 1
     }
     pub fn classify(&self, op: &Op) -> OpClass {
         match *op {
@@ -275,13 +275,13 @@ impl RefState {
             }
             Op::RemArg(a) => {
                 self.args &= !(1 << a);
-                for x in 0..5u32 {
-                    self.atts &= !(1 << (a as u32 * 5 + x));
-                    self.atts &= !(1 << (x * 5 + a as u32));
+                for x in 0..6u64 {
+                    self.atts &= !(1u64 << (a as u64 * 6 + x));
+                    self.atts &= !(1u64 << (x * 6 + a as u64));
                 }
             }
-            Op::NewAtt(a, b) => self.atts |= 1 << (a as u32 * 5 + b as u32),
-            Op::RemAtt(a, b) => self.atts &= !(1 << (a as u32 * 5 + b as u32)),
+            Op::NewAtt(a, b) => self.atts |= 1u64 << (a as u64 * 6 + b as u64),
+            Op::RemAtt(a, b) => self.atts &= !(1u64 << (a as u64 * 6 + b as u64)),
             Op::Query { .. } => {}
         }
     }
@@ -313,7 +313,7 @@ pub struct StateAnswers {
 }
 
 thread_local! {
-    static ANSWER_CACHE: std::cell::RefCell<std::collections::HashMap<(u8, u32), Rc<StateAnswers>>> = std::cell::RefCell::new(std::collections::HashMap::new());
+    static ANSWER_CACHE: std::cell::RefCell<std::collections::HashMap<(u8, u64), Rc<StateAnswers>>> = std::cell::RefCell::new(std::collections::HashMap::new());
 }
 
 pub fn answers_of(s: &RefState) -> Rc<StateAnswers> {
@@ -499,12 +499,12 @@ pub struct Judge {
     /// id under which each live label was last seen in a certificate (ids must be stable for the life
     /// of an argument and distinct between live arguments; which numbers the solver's private
     /// framework hands out is not prescribed)
-    seen_ids: [Option<usize>; 5],
+    seen_ids: [Option<usize>; 6],
 }
 
 impl Judge {
     pub fn new(kind: DynKind) -> Self {
-        Judge { kind, s: RefState::new(), bad_seen: false, i: 0, seen_ids: [None; 5] }
+        Judge { kind, s: RefState::new(), bad_seen: false, i: 0, seen_ids: [None; 6] }
     }
 
     pub fn step(&mut self, op: &Op, o: &StepObs) -> Option<Deviation> {
@@ -577,7 +577,7 @@ impl Judge {
                                     }
                                     _ => {}
                                 }
-                                if (0..5).any(|o| o != idx && s.has_arg(o as u8) && self.seen_ids[o] == Some(id)) {
+                                if (0..6).any(|o| o != idx && s.has_arg(o as u8) && self.seen_ids[o] == Some(id)) {
                                     return dev("bad_certificate", format!("certificate member {} has id {}, which another live argument also has", label, id));
                                 }
                                 self.seen_ids[idx] = Some(id);
